@@ -7,8 +7,10 @@ package attackctl
 import (
 	"bytes"
 	"crypto/tls"
+	"errors"
 	"fmt"
 	"io"
+	"net"
 	"net/http"
 	"runtime"
 	"sort"
@@ -119,6 +121,15 @@ func (t rt) RoundTrip(req *http.Request) (*http.Response, error) {
 	}
 	c.mu.Unlock()
 	<-ch
+	// how an exchange ends has nothing to do with scheduling: some fail inside the transport, some are answered
+	// with an error status, most succeed
+	switch seq % 5 {
+	case 1:
+		return nil, &net.OpError{Op: "dial", Net: "tcp", Err: errors.New("verif: connection refused")}
+	case 3:
+		return &http.Response{StatusCode: 503, Status: "503 Service Unavailable", Proto: "HTTP/1.1", ProtoMajor: 1, ProtoMinor: 1,
+			Header: http.Header{}, Body: io.NopCloser(bytes.NewReader([]byte("busy"))), Request: req}, nil
+	}
 	return &http.Response{StatusCode: 200, Status: "200 OK", Proto: "HTTP/1.1", ProtoMajor: 1, ProtoMinor: 1,
 		Header: http.Header{}, Body: io.NopCloser(bytes.NewReader(nil)), Request: req}, nil
 }
